@@ -167,7 +167,7 @@ func enumPathsGen(f *ssa.Function, start *ssa.BasicBlock, target ssa.Instruction
 			nd := decs
 			if iff != nil {
 				c, pos := stripNot(iff.Cond)
-				if rc := resolveAlong(c, pred); rc != c {
+				if rc := resolveAcyclic(c, pred); rc != c {
 					// a condition merged through a phi (a || b, inlined boolean helper): decide on what it is on this path
 					c2, pos2 := stripNot(rc)
 					c, pos = c2, pos == pos2
@@ -178,15 +178,19 @@ func enumPathsGen(f *ssa.Function, start *ssa.BasicBlock, target ssa.Instruction
 				if old, ok := conds[key]; ok && old != keyTruth {
 					continue // inconsistent with an earlier decision on the same condition
 				}
-				if val, known := foldCond(c, pred, nonnil); known && val != truth {
+				val, known := foldCond(c, pred, nonnil)
+				if known && val != truth {
 					continue // the condition has a known value on this path
 				}
-				nc = map[string]bool{}
-				for k, v := range conds {
-					nc[k] = v
+				if !known {
+					// a folded condition carries no information: it is not recorded as a decision
+					nc = map[string]bool{}
+					for k, v := range conds {
+						nc[k] = v
+					}
+					nc[key] = keyTruth
+					nd = append(append([]decision(nil), decs...), decision{iff, truth, c})
 				}
-				nc[key] = keyTruth
-				nd = append(append([]decision(nil), decs...), decision{iff, truth, c})
 			}
 			np := map[*ssa.BasicBlock]*ssa.BasicBlock{}
 			for k, v := range pred {
@@ -625,6 +629,36 @@ func resolveAlong(v ssa.Value, pred map[*ssa.BasicBlock]*ssa.BasicBlock) ssa.Val
 	return v
 }
 
+// resolveAcyclic is resolveAlong that stops at loop-header phis: on an acyclic path such
+// a phi would resolve to its loop-entry value, which is right for the first iteration only.
+func resolveAcyclic(v ssa.Value, pred map[*ssa.BasicBlock]*ssa.BasicBlock) ssa.Value {
+	for i := 0; i < 8; i++ {
+		ph, ok := v.(*ssa.Phi)
+		if !ok || isLoopHeader(ph.Block()) {
+			return v
+		}
+		nv := resolveAlong1(ph, pred)
+		if nv == ssa.Value(ph) {
+			return v
+		}
+		v = nv
+	}
+	return v
+}
+
+func resolveAlong1(ph *ssa.Phi, pred map[*ssa.BasicBlock]*ssa.BasicBlock) ssa.Value {
+	pr, has := pred[ph.Block()]
+	if !has {
+		return ph
+	}
+	for j, pb := range ph.Block().Preds {
+		if pb == pr {
+			return ph.Edges[j]
+		}
+	}
+	return ph
+}
+
 // definitelyNonNil: the value cannot be nil (by construction, or because the
 // path already dereferenced a value with the same canonical form).
 func definitelyNonNil(v ssa.Value, nonnil map[string]bool) bool {
@@ -638,7 +672,7 @@ func definitelyNonNil(v ssa.Value, nonnil map[string]bool) bool {
 // foldCond evaluates a (negation-stripped) branch condition on the path when its
 // operands resolve to constants, or to nil versus a value known to be non-nil.
 func foldCond(c ssa.Value, pred map[*ssa.BasicBlock]*ssa.BasicBlock, nonnil map[string]bool) (val, known bool) {
-	v := resolveAlong(c, pred)
+	v := resolveAcyclic(c, pred)
 	if k, ok := v.(*ssa.Const); ok && k.Value != nil && k.Value.Kind() == constant.Bool {
 		return constant.BoolVal(k.Value), true
 	}
@@ -646,7 +680,7 @@ func foldCond(c ssa.Value, pred map[*ssa.BasicBlock]*ssa.BasicBlock, nonnil map[
 	if !ok || (b.Op != token.EQL && b.Op != token.NEQ) {
 		return false, false
 	}
-	x, y := resolveAlong(b.X, pred), resolveAlong(b.Y, pred)
+	x, y := resolveAcyclic(b.X, pred), resolveAcyclic(b.Y, pred)
 	eq, kn := false, false
 	kx, xc := x.(*ssa.Const)
 	ky, yc := y.(*ssa.Const)
@@ -692,6 +726,22 @@ func noteDeref(in ssa.Instruction, pred map[*ssa.BasicBlock]*ssa.BasicBlock, non
 		}
 	case *ssa.Store:
 		base = x.Addr
+	case *ssa.Call:
+		// a module function that dereferences a pointer argument on every path to its return:
+		// after the call returned, that argument was non-nil
+		if sc := staticCallee(x); sc != nil && sc.Pkg != nil && (sc.Pkg.Pkg.Path() == modPath || strings.HasPrefix(sc.Pkg.Pkg.Path(), modPath+"/")) {
+			for i, a := range x.Call.Args {
+				if _, isPtr := a.Type().Underlying().(*types.Pointer); isPtr && mustDerefParam(sc, i) {
+					ra := resolveAlong(a, pred)
+					switch ra.(type) {
+					case *ssa.Alloc, *ssa.FieldAddr, *ssa.IndexAddr, *ssa.Global:
+					default:
+						nonnil[canon(ra)] = true
+					}
+				}
+			}
+		}
+		return
 	}
 	if base == nil {
 		return
@@ -774,7 +824,7 @@ func exploreFrom(from ssa.Instruction, extra []condFact, limit int) ([]*fwdPath,
 	}
 	nonnil0 := map[string]bool{}
 	eachInstr(f, func(d ssa.Instruction) {
-		if d != from && dominates(d, from) {
+		if d == from || dominates(d, from) {
 			noteDeref(d, nopred, nonnil0)
 		}
 	})
@@ -815,7 +865,7 @@ func exploreFrom(from ssa.Instruction, extra []condFact, limit int) ([]*fwdPath,
 			nc, nd := conds, decs
 			if iff != nil {
 				c, pos := stripNot(iff.Cond)
-				if rc := resolveAlong(c, pred); rc != c {
+				if rc := resolveAcyclic(c, pred); rc != c {
 					// a condition merged through a phi (a || b, inlined boolean helper): decide on what it is on this path
 					c2, pos2 := stripNot(rc)
 					c, pos = c2, pos == pos2
@@ -826,15 +876,18 @@ func exploreFrom(from ssa.Instruction, extra []condFact, limit int) ([]*fwdPath,
 				if old, ok := conds[key]; ok && old != keyTruth {
 					continue
 				}
-				if val, known := foldCond(c, pred, nonnil); known && val != truth {
+				val, known := foldCond(c, pred, nonnil)
+				if known && val != truth {
 					continue
 				}
-				nc = map[string]bool{}
-				for k, v := range conds {
-					nc[k] = v
+				if !known {
+					nc = map[string]bool{}
+					for k, v := range conds {
+						nc[k] = v
+					}
+					nc[key] = keyTruth
+					nd = append(append([]decision(nil), decs...), decision{iff, truth, c})
 				}
-				nc[key] = keyTruth
-				nd = append(append([]decision(nil), decs...), decision{iff, truth, c})
 			}
 			np := map[*ssa.BasicBlock]*ssa.BasicBlock{}
 			for k, v := range pred {
@@ -851,4 +904,35 @@ func exploreFrom(from ssa.Instruction, extra []condFact, limit int) ([]*fwdPath,
 	}
 	walk(from.Block(), idxIn(from)+1, map[*ssa.BasicBlock]*ssa.BasicBlock{}, conds0, decs0, nonnil0, map[edge]bool{}, nil)
 	return out, complete
+}
+
+var mustDerefMemo = map[*ssa.Function]map[int]bool{}
+
+// mustDerefParam: every path of f from entry to a return dereferences its i-th parameter
+// (field access or load through it) — so a call that returned proves the argument non-nil.
+func mustDerefParam(f *ssa.Function, i int) bool {
+	if f == nil || len(f.Blocks) == 0 || i >= len(f.Params) {
+		return false
+	}
+	if m, ok := mustDerefMemo[f]; ok {
+		if v, ok := m[i]; ok {
+			return v
+		}
+	} else {
+		mustDerefMemo[f] = map[int]bool{}
+	}
+	prm := ssa.Value(f.Params[i])
+	ok, _ := allPathsHit(f, nil, func(in ssa.Instruction) bool {
+		switch x := in.(type) {
+		case *ssa.FieldAddr:
+			return x.X == prm
+		case *ssa.UnOp:
+			return x.Op == token.MUL && x.X == prm
+		case *ssa.Store:
+			return x.Addr == prm
+		}
+		return false
+	})
+	mustDerefMemo[f][i] = ok
+	return ok
 }
